@@ -288,7 +288,7 @@ def expr_worker(job):
 
 
 def run(p):
-    f = p.n(1, 12)
+    f = p.n(8, 100)
     with mp.Pool(16) as pool:
         accs = pool.map(ops_worker, [(k, 60 * f) for k in range(16)])
         accs += pool.map(expr_worker, [(k, 250 * f) for k in range(16)])
